@@ -49,10 +49,94 @@ def _eval_terms(m, terms):
     return out
 
 
-def check(assertions, timeout_s=60, fallbacks=True, tactic=None, eval_terms=None):
-    """-> dict(verdict, model, backend, seconds, tried); eval_terms: {name: z3 term} evaluated in a counter-model"""
+# ------------------------------------------------------------------------------------- mod-by-lattice-size linearisation
+def _var_mods(e, out):
+    """application nodes `t mod d` with a non-numeral divisor, anywhere in e (quantifier bodies included)"""
+    seen, stack = set(), [e]
+    while stack:
+        x = stack.pop()
+        if x.get_id() in seen:
+            continue
+        seen.add(x.get_id())
+        if z3.is_quantifier(x):
+            stack.append(x.body())
+        elif z3.is_app(x):
+            if x.decl().kind() == z3.Z3_OP_MOD and not z3.is_int_value(x.arg(1)):
+                out.append(x)
+            stack.extend(x.children())
+
+
+def _has_bound_var(e):
+    seen, stack = set(), [e]
+    while stack:
+        x = stack.pop()
+        if x.get_id() in seen:
+            continue
+        seen.add(x.get_id())
+        if z3.is_var(x):
+            return True
+        if z3.is_quantifier(x):
+            stack.append(x.body())
+        elif z3.is_app(x):
+            stack.extend(x.children())
+    return False
+
+
+def mod_lemma():
+    """assertions whose unsatisfiability is the rewrite rule used by linearise_mod:  d > 0 and -d <= t < 2d  =>  t mod d = ite(t<0, t+d, ite(t>=d, t-d, t))"""
+    t, d = z3.Ints('t d')
+    return [d > 0, t >= -d, t < 2 * d, t % d != z3.If(t < 0, t + d, z3.If(t >= d, t - d, t))]
+
+
+def linearise_mod(assertions, per_query_ms=5000):
+    """Equivalent list of assertions in which `t mod d` (d not a numeral: a lattice period such as 2*L_x) is replaced by
+    ite(t<0, t+d, ite(t>=d, t-d, t)) - but only for the terms for which  d > 0 and -d <= t < 2d  is PROVED from those assertions of the same list
+    that contain no such term (the size precondition and the membership hypotheses).  Since the proving assertions are conjuncts of the query, the
+    rewritten query has the same models; a term whose range is not proved (or that mentions a bound variable, or nests another such term) is left alone.
+    -> (assertions, n_rewritten, n_left)"""
+    mods_by = []
+    for a in assertions:
+        out = []
+        _var_mods(a, out)
+        mods_by.append(out)
+    hyp = [a for a, ms in zip(assertions, mods_by) if not ms]
+    todo = {}
+    for ms in mods_by:
+        for m in ms:
+            todo.setdefault(m.get_id(), m)
+    if not todo:
+        return list(assertions), 0, 0
+    s = z3.Solver(); s.set('timeout', per_query_ms); s.add(*hyp)
+    subs, left = [], 0
+    for m in todo.values():
+        t, d = m.arg(0), m.arg(1)
+        inner = []
+        _var_mods(t, inner); _var_mods(d, inner)
+        if inner or _has_bound_var(m):
+            left += 1
+            continue
+        s.push(); s.add(z3.Not(z3.And(d > 0, t >= -d, t < 2 * d)))
+        r = s.check(); s.pop()
+        if r == z3.unsat:
+            subs.append((m, z3.If(t < 0, t + d, z3.If(t >= d, t - d, t))))
+        else:
+            left += 1
+    if not subs:
+        return list(assertions), 0, left
+    return [z3.substitute(a, *subs) for a in assertions], len(subs), left
+
+
+def check(assertions, timeout_s=60, fallbacks=True, tactic=None, eval_terms=None, linearise=False):
+    """-> dict(verdict, model, backend, seconds, tried); eval_terms: {name: z3 term} evaluated in a counter-model.
+    linearise: apply linearise_mod first (same models, see there); the count of rewritten terms is reported under 'linearised'"""
     t0 = time.time()
     tried = []
+    if linearise:
+        assertions, n_lin, n_left = linearise_mod(assertions)
+        r_ = check(assertions, timeout_s, fallbacks, tactic, eval_terms)
+        r_['linearised'] = (n_lin, n_left)
+        r_['seconds'] = time.time() - t0
+        return r_
     s = z3.Solver() if tactic is None else z3.Tactic(tactic).solver()
     s.set('timeout', int(timeout_s * 1000))
     s.add(*assertions)
@@ -106,6 +190,16 @@ def minimise(assertions, objectives, timeout_s=20, rounds=24):
         return None
     best = s.model()
     for obj in objectives:
+        # small values first: a descent from a large model value can stall at the round limit, and counter-examples of lattice clauses exist at small sizes
+        cur0 = best.eval(obj, model_completion=True)
+        for c in (0, 1, 2, 3, 4, 6, 8, 12, 16, 24, 32, 64):
+            if not z3.is_int_value(cur0) or cur0.as_long() <= c:
+                break
+            s.push(); s.add(obj <= c)
+            if s.check() == z3.sat:
+                best = s.model(); s.pop(); s.add(obj <= best.eval(obj, model_completion=True))
+                break
+            s.pop()
         for _ in range(rounds):
             cur = best.eval(obj, model_completion=True)
             if not z3.is_int_value(cur):
